@@ -13,6 +13,13 @@ ASSUMPTIONS = ['numpy basic/fancy indexing of 1-D arrays and Python list indexin
                'the staged code is compared with the repaired variant of Model.Ragged (getItemV true) on every case']
 TRUSTED_EXTRA = ['the Python list-of-rows oracle in harness/props/c05.py (about 60 lines, numpy indexing of 1-D arrays only)']
 
+# the source functions Model.Ragged mirrors (reads only; the writers belong to C06)
+MIRRORS = [('enspara/ra/ra.py', ['where', '_convert_from_1d', '_handle_negative_indices', '_convert_from_2d',
+                                 '_slice_to_list', 'partition_list', '_row_views', '_get_iis_from_slices',
+                                 '_get_iis_from_list', 'RaggedArray.__init__', 'RaggedArray.__getitem__',
+                                 'RaggedArray.__len__', 'RaggedArray.shape', 'RaggedArray.size', 'RaggedArray.starts',
+                                 'RaggedArray.dtype', 'RaggedArray.flatten'])]
+
 STEPS = [None, 1, 2, 3, -1, -2, -3]
 CTORS = ['nested-list', 'nested-array', 'flat-lengths-list', 'flat-lengths-array']
 
